@@ -1,5 +1,10 @@
 package main
 
+import (
+	"github.com/openziti/storage/ast"
+	"go.etcd.io/bbolt"
+)
+
 // C12, stream n4, added after the ninth wave of seeded changes (design/C12.md, "Strengthening after C12-w9-3"):
 //
 // THE ENTITY'S OWN ID AMONG THE ATOMS.  In every row-wise stream (n, m, q) the atoms were comparisons on ordinary
@@ -54,7 +59,7 @@ func c12w9IdJobs(o *opts, r *rng, stats map[string]int) []*c12nJob {
 		}
 		return out
 	}
-	two, three := shapes(2, 2, 2), shapes(3, 2, 2)
+	one, two, three := shapes(1, 2, 3), shapes(2, 2, 2), shapes(3, 2, 2)
 	stats["n4_shapes_two_leaves"], stats["n4_shapes_three_leaves"] = len(two), len(three)
 	nsuf := 0
 	emit := func(all []*c12Expr, texts []string, every int) {
@@ -68,8 +73,9 @@ func c12w9IdJobs(o *opts, r *rng, stats map[string]int) []*c12nJob {
 		stats["n4_atom_tuples"]++
 	}
 	other := func(k int) string { return c12w9Others[k%len(c12w9Others)] }
-	// two leaves: every id atom at both positions
+	// one leaf (parentheses and nots around the id comparison), two leaves: every id atom at both positions
 	for ai, a := range c12w9IdAtoms {
+		emit(one, []string{a}, 4)
 		emit(two, []string{a, other(ai)}, 6)
 		emit(two, []string{other(ai + 3), a}, 6)
 	}
@@ -102,4 +108,34 @@ func c12w9IdJobs(o *opts, r *rng, stats map[string]int) []*c12nJob {
 		emit(three, []string{c12w9IdAtoms[1], c12w9IdAtoms[4], other(r.intn(9))}, 0)
 	}
 	return jobs
+}
+
+// c12w9IterBits: which rows Store.IterateIds yields for the predicate of the query - the store's other way of
+// evaluating a filter over its rows (a filtered cursor over the entities bucket, no scanner); E rejected, P panic
+func c12w9IterBits(d *c12nDb, text string) (res string) {
+	defer func() {
+		if r := recover(); r != nil {
+			res = "P"
+		}
+	}()
+	query, err := ast.Parse(d.store, text)
+	if err != nil {
+		return "E"
+	}
+	_ = d.db.View(func(tx *bbolt.Tx) error {
+		sel := map[string]bool{}
+		for c := d.store.IterateIds(tx, query.GetPredicate()); c.IsValid(); c.Next() {
+			sel[string(c.Current())] = true
+		}
+		b := make([]byte, len(d.ids))
+		for i, id := range d.ids {
+			b[i] = '0'
+			if sel[id] {
+				b[i] = '1'
+			}
+		}
+		res = string(b)
+		return nil
+	})
+	return res
 }
